@@ -210,3 +210,32 @@ stun_total!(c07_stun_decode_20, 20);
 stun_total!(c07_stun_decode_24, 24);
 stun_total!(c07_stun_decode_28, 28);
 stun_total!(c07_stun_decode_32, 32);
+
+/// decode of a 24-byte message = header + ONE attribute header: a zero-length attribute in the
+/// last four bytes is still visited (USE-CANDIDATE is exactly such an attribute)
+#[kani::proof]
+#[kani::unwind(40)]
+fn c16_decode_24_trailing_zero_length_attr() {
+    let mut b: [u8; 24] = kani::any();
+    b[22] = 0; b[23] = 0; // attribute length 0
+    let typ = u16::from_be_bytes([b[20], b[21]]);
+    let r = decode_stun_message(&b);
+    if let Ok(d) = r {
+        assert!(d.use_candidate == (typ == 0x0025));
+        assert!(d.transaction_id == [b[8], b[9], b[10], b[11], b[12], b[13], b[14], b[15], b[16], b[17], b[18], b[19]]);
+        kani::cover!(d.use_candidate);
+        core::mem::forget(d);
+    }
+}
+/// decode(encode(binding request + USE-CANDIDATE)) sees USE-CANDIDATE
+#[kani::proof]
+#[kani::unwind(40)]
+fn c16_decode_of_encode_use_candidate() {
+    let tx: [u8; 12] = kani::any();
+    let msg = StunMessage { class: StunClass::Request, method: StunMethod::Binding, transaction_id: tx, attributes: vec![StunAttribute::UseCandidate] };
+    let out = encode_stun_message(&msg, None, false).unwrap();
+    assert!(out.len() == 24 && out[20..24] == [0x00, 0x25, 0x00, 0x00]);
+    let d = decode_stun_message(&out).unwrap();
+    assert!(d.use_candidate && d.class == StunClass::Request && d.method == StunMethod::Binding && d.transaction_id == tx);
+    core::mem::forget(msg); core::mem::forget(d);
+}
